@@ -146,7 +146,7 @@ func (g *qGen) args(fl *FieldSpec) string {
 		return ""
 	}
 	if g.k.Variables && g.pct(50) {
-		v := g.newVar("String", []string{"p", "q r", "ü"}[g.r.Intn(3)])
+		v := g.newVar("String", []string{"p", "q r", "ü", "7%d %s", "100%"}[g.r.Intn(5)])
 		return fmt.Sprintf("(%s: $%s)", a.Name, v)
 	}
 	return fmt.Sprintf("(%s: %q)", a.Name, []string{"lit", "a b", ""}[g.r.Intn(3)])
